@@ -25,7 +25,7 @@ TECHNIQUE = ('deterministic simulation with two storage nodes (database '
              'files) and a generated router; order of evolving the databases '
              'is the schedule; sql_error@k on one alias')
 PLAN = {
-    'quick': {'count': 260, 'max_wall': 170, 'shrink_budget': 20,
+    'quick': {'count': 360, 'max_wall': 170, 'shrink_budget': 20,
               'shrink_wall': 100},
     'thorough': {'count': 5000, 'max_wall': 1500, 'shrink_budget': 50,
                  'shrink_wall': 300},
